@@ -97,7 +97,7 @@ def run(ctx):
             ctx.check(ve.space is Tmpl, 'C08.A1', gm, 'map values', 'the values are lists of template ids', 'the values are lists of %s, expected template ids' % ve)
         else:
             ctx.undecided('C08.A1', gm, 'element kind of the map values not derived (%s)' % ve)
-        ctx.check(isinstance(nan, Arr) and isinstance(nan.elem, Ix) and nan.elem.space is Clu, 'C08.A1', gm, 'empty ids', 'the empty-id list holds cluster ids', 'the empty-id list holds %s' % nan)
+        ctx.check(isinstance(nan, Arr) and isinstance(nan.elem, Ix) and nan.elem.space is Clu, 'C08.A1', gm, 'empty ids', 'the empty-id list holds cluster ids', 'the empty-id list holds %s' % nan, value=getattr(nan, 'elem', nan))
     else:
         ctx.undecided('C08.A1', gm, 'get_merge_map returns %s' % res)
     PG = Pat(gm)
@@ -165,13 +165,13 @@ def run(ctx):
         if isinstance(res, Rec) and isinstance(res.fields.get('mean_waveforms'), Arr) and isinstance(res.fields.get('channel_ids'), Arr):
             w, ch = res.fields['mean_waveforms'], res.fields['channel_ids']
             ctx.check(len(w.axes) == 2 and w.axes[0] is Samp and w.axes[1] is ch.axes[0], 'C08.A3', mw, lab + ' axes', '%s: mean waveform is (samples x the listed channels)' % lab,
-                      '%s: mean waveform axes %s vs channel list axis %s' % (lab, w.axes, ch.axes))
+                      '%s: mean waveform axes %s vs channel list axis %s' % (lab, w.axes, ch.axes), value=w)
             want = AMP if unw else AMPWH
             ctx.check(isinstance(w.elem, Q) and w.elem.dim == want.dim, 'C08.A3', mw, lab + ' dimension', '%s: mean waveform has dimension %s' % (lab, want),
-                      '%s: mean waveform has dimension %s, expected %s (the unwhiten flag must reach every template)' % (lab, w.elem, want))
+                      '%s: mean waveform has dimension %s, expected %s (the unwhiten flag must reach every template)' % (lab, w.elem, want), value=getattr(w, 'elem', w))
             ctx.check(isinstance(w.elem, Q) and any(t.startswith('wmean:') for t in w.elem.tags), 'C08.A3', mw, lab + ' weighting', '%s: the templates are combined by a WEIGHTED mean' % lab,
-                      '%s: the templates are not combined by a weighted mean (%s)' % (lab, sorted(w.elem.tags) if isinstance(w.elem, Q) else w.elem))
-            ctx.check(isinstance(ch.elem, Ix) and ch.elem.space is Chan, 'C08.A3', mw, lab + ' channels', '%s: channel_ids are channel indices' % lab, '%s: channel_ids hold %s' % (lab, ch.elem))
+                      '%s: the templates are not combined by a weighted mean (%s)' % (lab, sorted(w.elem.tags) if isinstance(w.elem, Q) else w.elem), value=getattr(w, 'elem', w))
+            ctx.check(isinstance(ch.elem, Ix) and ch.elem.space is Chan, 'C08.A3', mw, lab + ' channels', '%s: channel_ids are channel indices' % lab, '%s: channel_ids hold %s' % (lab, ch.elem), value=getattr(ch, 'elem', ch))
         else:
             ctx.undecided('C08.A3', mw, '%s: result %s' % (lab, res))
     # structure: weights, dominant template, scatter
@@ -244,7 +244,7 @@ def run(ctx):
     res = S.result(tc, {'self': UNK, 'cluster_id': Ix(Clu)})
     nrep += flush(ctx, S, 'get_template_counts')
     ctx.check(isinstance(res, Arr) and res.axes == (Tmpl,) and isinstance(res.elem, Q) and res.elem.d() == {'cnt': 1}, 'C08.A3', tc, 'get_template_counts',
-              'per-template spike counts over the full template table', 'get_template_counts returns %s, expected counts over all templates (minlength = n_templates)' % res)
+              'per-template spike counts over the full template table', 'get_template_counts returns %s, expected counts over all templates (minlength = n_templates)' % res, value=res)
     # ---- A2
     cw = meth('cluster_waveforms')
     S = Shape(repo, selfattrs=model_attrs(), inline_depth=9)
@@ -252,9 +252,9 @@ def run(ctx):
     nrep += flush(ctx, S, 'cluster_waveforms')
     if isinstance(res, Rec) and isinstance(res.fields.get('data'), Arr):
         dta = res.fields['data']
-        ctx.check(dta.axes == (Clu, Samp, Chan), 'C08.A2', cw, 'axes', 'cluster waveforms over (cluster ids 0..max, samples, channels)', 'cluster waveforms are over %s' % (dta.axes,))
+        ctx.check(dta.axes == (Clu, Samp, Chan), 'C08.A2', cw, 'axes', 'cluster waveforms over (cluster ids 0..max, samples, channels)', 'cluster waveforms are over %s' % (dta.axes,), value=dta)
         ctx.check(isinstance(dta.elem, Q) and dta.elem.dim == AMPWH.dim, 'C08.A2', cw, 'dimension', 'cluster waveforms are stored whitened like the templates (same dimension)',
-                  'cluster waveforms have dimension %s, the stored templates %s: they are later unwhitened again' % (dta.elem, AMPWH))
+                  'cluster waveforms have dimension %s, the stored templates %s: they are later unwhitened again' % (dta.elem, AMPWH), value=getattr(dta, 'elem', dta))
         ctx.check(isinstance(res.fields.get('cols'), NoneT), 'C08.A2', cw, 'cols', 'cluster waveforms are dense (cols=None)', 'cluster waveforms are not marked dense')
     else:
         ctx.undecided('C08.A2', cw, 'cluster_waveforms returns %s' % res)
